@@ -690,3 +690,53 @@ def rule_flag_forward(ctx):
                       "the header parser is called with %s=%s instead of the caller's value: for some sections the flag is not "
                       "honoured (a junk line there raises although errors are to be ignored)" % (name, unparse(v) if v is not None else "<default>"))
     ctx.floor("HDR.FLAG-FORWARD", 2)
+
+
+def rule_every_line(ctx):
+    """HDR.EVERY-LINE / HDR.RAW-LINE: inside a header section every line that is neither blank nor a comment (by its first
+    character) nor the next title is parsed, and what is parsed is the line of the file with surrounding whitespace removed -
+    nothing else is skipped, folded, normalised or rewritten before read_header_line sees it"""
+    p = ctx.p
+    fi, loop, calls = _line_loop(p)
+    cfg = build_cfg(p, fi)
+    cd = ControlDependence(cfg)
+    prov = Provenance(cfg)
+    linevar = None
+    if isinstance(loop.target, ast.Name):
+        linevar = loop.target.id
+    elif isinstance(loop.target, ast.Tuple) and isinstance(loop.target.elts[-1], ast.Name):
+        linevar = loop.target.elts[-1].id
+    cparams = [x for x in fi.params() if "comment" in x]
+    for call in calls:
+        site = "%s#parse-call" % fi.qual
+        extra = []
+        for nid in cfg.node_of_expr(call):
+            for (tn, lab) in cd.transitive(nid):
+                t = cfg.nodes[tn].ast
+                if cfg.nodes[tn].kind != "test" or t is None or not in_block(t, loop.body):
+                    continue
+                if any(isinstance(par_, ast.ExceptHandler) for par_ in parents(t)):
+                    continue      # tests of the error handler decide what happens after a failed parse, not whether a line is parsed
+                txt = ast.unparse(t)
+                names = {x.id for x in ast.walk(t) if isinstance(x, ast.Name)}
+                is_blank = (names <= {linevar, "len"} and not any(isinstance(c, ast.Call) and isinstance(c.func, ast.Attribute) for c in ast.walk(t)))
+                is_comment = bool(names & set(cparams))
+                is_title = "startswith('~')" in txt
+                is_end = any(isinstance(c, ast.Compare) and "line_no" in ast.unparse(c) for c in ast.walk(t)) and linevar not in names
+                if not (is_blank or is_comment or is_title or is_end):
+                    extra.append(txt)
+        ctx.check(not extra, "HDR.EVERY-LINE", site, fi, call,
+                  "a header line is parsed unless it is blank, a comment or the next title",
+                  "whether a header line is parsed also depends on %s: such lines are silently dropped, and in ~Curves a dropped line "
+                  "shifts every later curve onto its neighbour's data column" % sorted(set(extra)))
+        # provenance of the text that is parsed
+        arg = call.args[0] if call.args else None
+        if arg is not None:
+            nids = cfg.node_of_expr(call)
+            atoms = prov.atoms(arg, nids[0]) if nids else set()
+            cn = {a[1] for a in atoms if a[0] == "callname"} - {"strip", "rstrip", "lstrip", "enumerate", "readline", "iter", "next"}
+            ctx.check(not cn, "HDR.RAW-LINE", "%s#parsed-text" % fi.qual, fi, call,
+                      "the text handed to the line parser is the file's line, stripped of surrounding whitespace only",
+                      "the header line passes through %s before it is parsed: name, unit, value and description no longer come out as "
+                      "written (e.g. NFKC turns the unit `µs/ft` into `μs/ft`)" % sorted(cn))
+    ctx.floor("HDR.EVERY-LINE", 1)
